@@ -12,7 +12,7 @@ CLAUSES = {
     "particle-vars-equal": "per-particle variables in those files are equal",
 }
 BOUNDS = {
-    "quick": "Nsteps 4..6, period 1..2, numrec 1..2, restart from every completed file but the last, continuous release every 2 steps (+ one late discrete row), one IBM kill (symbolic flag, any step), IBM age variable, scalar forcing, EF/RK2/RK4; positions, velocity, particle values symbolic",
+    "quick": "one scenario on the real ROMS grid/forcing (rebuilt at the restart time; symbolic release depth) plus, with plug-in grid/forcing: Nsteps 4..7, period 1..2, numrec 1..2, restart from every completed file but the last, continuous release every 2 steps (+ one late discrete row), one IBM kill (symbolic flag, any step), IBM age variable, scalar forcing, EF/RK2/RK4; positions, velocity, particle values symbolic",
     "thorough": "Nsteps up to 8, period 1..3, numrec 1..3",
 }
 ASSUMES = ["values are stored exactly (output precision is outside the claim)", "diffusion off", "plug-in grid/forcing with constant velocity (the ROMS forcing restart is C03's time-shift argument)"]
@@ -24,6 +24,9 @@ def scenarios(tier):
     q = tier == "quick"
     out = []
     combos = [(4, 1, 1), (4, 1, 2), (5, 2, 1), (6, 2, 1), (6, 2, 2), (5, 1, 2), (6, 1, 1), (5, 2, 2), (7, 3, 2)] if q else [(n, p, r) for n in (4, 5, 6, 7, 8) for p in (1, 2, 3) for r in (1, 2, 3)]
+    out.append(dict(name="roms-N5-P2-R1-EF", fn="run", params=dict(N=5, P=2, R=1, adv="EF", roms=True), cost=60))
+    if not q:
+        out.append(dict(name="roms-N6-P1-R2-RK4", fn="run", params=dict(N=6, P=1, R=2, adv="RK4", roms=True), cost=90))
     for (N, P, R) in combos:
         for adv in (("EF",) if (N, P, R) != (6, 2, 1) else ("EF", "RK2", "RK4")):
             out.append(dict(name=f"N{N}-P{P}-R{R}-{adv}", fn="run", params=dict(N=N, P=P, R=R, adv=adv), cost=N * 3))
@@ -42,8 +45,13 @@ def _config(W, tmp, sub, p, x0, u, temp, w0, kill, warm=None, first_file=None):
         output=dict(filename=str(sub / (first_file or "out.nc")), output_period=P * DT, instance_variables=ivars, particle_variables=pvars, numrec=R),
         warm_start=(dict(filename=str(warm), variables=["age", "temp", "w0"]) if warm else {}),
     )
-    cfg["forcing"]["filename"] = str(tmp / "unused-forcing.nc")  # the plug-ins ignore it; configure_v2 wants one for the grid default
-    cfg["grid"]["filename"] = str(tmp / "unused-grid.nc")
+    if p.get("roms"):
+        # real ROMS grid + forcing (level- and frame-dependent currents, scalar field): the forcing is rebuilt at the restart time
+        cfg["grid"] = dict(module="ladim.ROMS", filename=str(tmp / "ocean.nc"))
+        cfg["forcing"] = dict(module="ladim.ROMS", filename=str(tmp / "ocean.nc"), extra_forcing=["temp"])
+    else:
+        cfg["forcing"]["filename"] = str(tmp / "unused-forcing.nc")  # the plug-ins ignore it; configure_v2 wants one for the grid default
+        cfg["grid"]["filename"] = str(tmp / "unused-grid.nc")
     conf = W.load("ladim.configure")
     conf.configure_v2(cfg)  # the real defaulting + warm-start handling (start time from the file, skip_initial, release.warm_start_file)
     return cfg
@@ -54,16 +62,25 @@ def run(W, p):
     tmp = W.scratch()
     (tmp / "A").mkdir()
     (tmp / "B").mkdir()
-    x0 = W.real("x0", 6, 14)
+    if p.get("roms"):
+        from harness import c14
+
+        c14._files(W, tmp, T0, c14._uvals(W))
+        x0 = W.frac(11, 4)  # start position inside the 6x6 ROMS grid; depth symbolic below
+    else:
+        x0 = W.real("x0", 6, 14)
     u = W.real("u", -W.frac(1, 100), W.frac(1, 100))
     temp = W.real("temp")
     w0 = W.real("w0")
-    kstep = W.idx(W.int("killstep", 0, N - 1))
-    kpid = W.idx(W.int("killpid", 0, 1))
+    kstep = W.idx(W.int("killstep", 0, N - 1) if not p.get("roms") else W.int("killstep", 1, 2))
+    kpid = W.idx(W.int("killpid", 0, 1)) if not p.get("roms") else 0
     kflag = W.bool("killflag")
     kill = {kstep: {kpid: kflag}}
     # continuous release from the start (one row, every 2 steps)
-    W.table(tmp / "r.rls", ["release_time", "X", "Y", "Z", "w0"], [[W.dt(T0), x0, 10, 5, w0]])
+    if p.get("roms"):
+        W.table(tmp / "r.rls", ["release_time", "X", "Y", "Z", "w0"], [[W.dt(T0), x0, 3, W.real("z0", 0, 99), w0]])
+    else:
+        W.table(tmp / "r.rls", ["release_time", "X", "Y", "Z", "w0"], [[W.dt(T0), x0, 10, 5, w0]])
     cfgA = _config(W, tmp, tmp / "A", p, x0, u, temp, w0, kill)
     run_main(W, cfgA)
     nrec = len([s for s in range(N) if s % P == 0])
